@@ -181,6 +181,11 @@ def run(ctx: Ctx):
             i = norm(P1.target.elts[0])
             u1 = norm(P1.target.elts[1].elts[1])
             inner_iter = norm(expand_locals(f.node, P2.iter, skip=(i,)))
+            # `islice(T, a, None)` walks the same elements of the list T, in the same order, as `T[a:]`
+            m_ = P2.iter
+            if isinstance(m_, ast.Call) and norm(m_.func) in ("islice", "itertools.islice") and len(m_.args) == 3 and not m_.keywords and \
+                    isinstance(m_.args[2], ast.Constant) and m_.args[2].value is None:
+                inner_iter = f"{norm(expand_locals(f.node, m_.args[0], skip=(i,)))}[{norm(expand_locals(f.node, m_.args[1], skip=(i,)))}:]"
             if inner_iter == f"{ua}.n_tuple[{i} + 1:]" and isinstance(P2.target, ast.Tuple):
                 u2 = norm(P2.target.elts[1])
                 dom_ok = True
